@@ -66,7 +66,8 @@ class C01(Spec):
     design_ref = "DESIGN.md §5 C01"
     technique = "Lean 4 invariant proof over all schedules of a micro-step model + step-for-step differential replay on the real headers under a baton scheduler"
     level_text = ("Lean 4 theorems over a micro-step model of promise/future/awaiter chain (one step per atomic operation of the code) for any number of "
-                  "resolvers/waiters and every schedule: unique winner, result = winner's payload, stability, losers leave no trace, drop observed as canceled. "
+                  "resolvers/waiters (resolver kinds: value / exception / drop calls, ~promise, destruction of a promise_with_default[_v/_vp] delivering its default) and every "
+                  "schedule: unique winner, result = winner's payload, stability, losers leave no trace, drop observed as canceled. "
                   "The model is tied to future.h/awaiter.h by replaying generated (and exhaustively enumerated small) schedules on the unmodified headers under an "
                   "interposed-atomics baton scheduler and diffing every operation line; oracles evaluate the statement on the implementation trace.")
     level_note = ("trusted: Lean kernel; hand-written list-level model (the intrusive `_next` links are abstracted to a list: pointer-level safety of the walk is covered by "
